@@ -124,7 +124,30 @@ func checkC04(w *Worker) {
 	if w.Tier == "thorough" {
 		maxR, maxE = 3, 3
 	}
+	earlierParse := false
+	// files parsed right before the file under test, in the same process (a command reads the book, then the log): an
+	// aborted parse, a parse that ends without a final newline, a file beyond the buffers, a wide record
+	var bigEarlier strings.Builder
+	for r := 0; r < 300; r++ {
+		bigEarlier.WriteString(fmt.Sprintf("earlier/%03d:\n  # note: n%d\n  element %d: %d\n", r, r, r, r))
+	}
+	earlierTexts := []string{"e1:\n  a: 1\n  nosep\n  b: 2\ne2:\n  c: 3\n", "e1:\n  # k: v\n  a: 1\n  b: 2", bigEarlier.String(),
+		"wide:\n  a: 1\n  b: 2\n  c: 3\n  d: 4\n  e: 5\n  f: 6\n  g: 7\n  h: 8\n  i: 9\n  # note: x\n  j: 10\n", "e1:\n  a: q\n"}
 	check := func(x *Exec, f absFile, text string, what string) {
+		if earlierParse {
+			ei := x.Choose(len(earlierTexts), "event:earlier-parse")
+			stop := x.Choose(2, "event:earlier-parse-stopped-by-callback") == 1
+			func() {
+				defer func() {
+					if r := recover(); r != nil {
+						rethrowSentinel(r)
+					}
+				}()
+				parser.ParseStreamCallback(strings.NewReader(earlierTexts[ei]), parser.NewDefaultConfig(), func(n *shared.ParserNode, err error) (bool, error) {
+					return stop, err
+				})
+			}()
+		}
 		recs, errs, ret, pan := parseAll(text)
 		got, want := recsString(recs), recsString(wantRecs(f))
 		x.Obs(got, fmt.Sprint(errs), fmt.Sprint(ret), pan)
@@ -194,6 +217,15 @@ func checkC04(w *Worker) {
 		x.Case(text, true)
 		check(x, f, text, "utf8-ends")
 	})
+	// A4: the same small files after an earlier parse in the same process
+	earlierParse = true
+	w.Explore("after-an-earlier-parse", ExploreOpts{ShardDepth: 4, Budgets: map[string]int{"layout": 1}}, func(x *Exec) {
+		f := genSkeleton(x, 2, 2, false)
+		text, _ := renderFile(x, f, renderOpts{})
+		x.Case(text, len(f) > 0)
+		check(x, f, text, "after-an-earlier-parse")
+	})
+	earlierParse = false
 	// B: every file that departs from the default layout in at most dev places
 	layoutBody := func(r, e int) func(x *Exec) {
 		return func(x *Exec) {
